@@ -116,9 +116,20 @@ func init() {
 	}})
 	register(&PropertyRule{ID: "C13", Explain: "structural necessary conditions of C13 (configuration algebra): see DESIGN.md §5 C13", Run: func(c *Check) {
 		c13ConfAlgebra(c)
+		// Restore's precondition at its raft call site: the snapshot's configuration is replayed on an empty tracker
+		c.OnlyRules = map[string]bool{"C09.C": true}
+		c09Install(c)
+		c.OnlyRules = nil
 	}})
 	register(&PropertyRule{ID: "C14", Explain: "C14 (no internal assertion fires): panic-site ledger and the statically discharged sites only; see DESIGN.md §5 C14", Run: func(c *Check) {
 		c14Panics(c)
+		// preconditions of assertions/bounds that other groups already decide: the campaign gate (a node
+		// never leads a configuration it has not applied; the scan stays inside the log) and the
+		// read-only queue's slice bounds
+		c10Hup(c)
+		c.OnlyRules = map[string]bool{"C11.M": true}
+		c11ReadIndex(c)
+		c.OnlyRules = nil
 	}})
 	register(&PropertyRule{ID: "C15", Explain: "C15 (convergence): existence of each recovery edge only; see DESIGN.md §5 C15", Run: func(c *Check) {
 		c15Recovery(c)
